@@ -7,6 +7,7 @@ cd /verif
 timeout 1200 ./harness/harness run < $d/cases_$p.sexp > $d/chk_$p.sexp 2> $d/err_$p.txt; rc=$?
 rm -f $d/ver_$p.in.*
 split -n l/16 $d/chk_$p.sexp $d/ver_$p.in.
+ulimit -s unlimited 2>/dev/null || ulimit -s 1000000
 for x in $d/ver_$p.in.*; do ( timeout 900 /verif/runner/runner check < $x > $x.out ) & done
 wait
 cat $d/ver_$p.in.*.out > $d/ver_$p.sexp; rm -f $d/ver_$p.in.*
